@@ -24,7 +24,9 @@ import (
 	"github.com/fogfish/golem/pure/monoid"
 )
 
-const Unit = time.Second // one unit of virtual time
+// One unit of virtual time.  Deliberately not a round number: a refactoring that rounds a period to milliseconds, to
+// 10 ms slices or to microseconds shifts every tick and becomes visible.  cfg.UnitNs overrides it (sub-millisecond units).
+const DefaultUnit = time.Second + 3*time.Microsecond + 7*time.Nanosecond
 
 // Cfg selects the stage under test and its harness-owned user functions.
 type Cfg struct {
@@ -45,6 +47,7 @@ type Cfg struct {
 	Seed     int     `json:"seed"`   // Unfold seed
 	Gate     bool    `json:"gate"`   // user calls block until released
 	StdErr   bool    `json:"stderr"` // attach pipe.StdErr to the error channel instead of a harness consumer
+	UnitNs   int     `json:"unit_ns"`          // duration of one unit of virtual time in ns (0: DefaultUnit)
 	Dup      []int   `json:"dup,omitempty"`    // Join: indices of input channels handed to Join a second time
 	Stages   []Cfg   `json:"stages,omitempty"` // kind Pipeline: the stages, first to last (their error channels go to pipe.StdErr)
 }
@@ -124,7 +127,7 @@ type ctl struct {
 
 	ins     []chan int
 	newSnd  chan<- int
-	refIn   chan *cell // input 0 of a reference-typed fold
+	xin     *xport // input 0 when its element type is not int (folds over other carriers)
 	inline  bool // inside a burst
 	outs    map[string]func() (int, bool)
 	outLen  map[string]func() int
@@ -145,7 +148,14 @@ type ctl struct {
 	predSet   map[int]bool
 }
 
-func (c *ctl) now() int { return int(time.Since(c.start) / Unit) }
+func (c *ctl) unit() time.Duration {
+	if c.cfg.UnitNs > 0 {
+		return time.Duration(c.cfg.UnitNs)
+	}
+	return DefaultUnit
+}
+
+func (c *ctl) now() int { return int(time.Since(c.start) / c.unit()) }
 
 func (c *ctl) emit(e Ev) {
 	c.mu.Lock()
@@ -183,6 +193,72 @@ func (m refMonoid) Combine(a, b *cell) *cell {
 	m.fs.c.enter(a.v, b.v)
 	a.v += b.v
 	return a
+}
+
+// xport is input 0 of a fold whose carrier is not int: the controller still deals in ints.
+type xport struct {
+	trySend func(v int) bool
+	send    func(v int)
+	close   func()
+	length  func() int
+	drain   func()
+}
+
+func newXport[A any](ch chan A, toA func(int) A) *xport {
+	return &xport{
+		trySend: func(v int) bool {
+			select {
+			case ch <- toA(v):
+				return true
+			default:
+				return false
+			}
+		},
+		send:   func(v int) { ch <- toA(v) },
+		close:  func() { close(ch) },
+		length: func() int { return len(ch) },
+		drain: func() {
+			for range ch {
+			}
+		},
+	}
+}
+
+// set is a non-comparable carrier: set union over map[int]struct{} (cfg.monoid = "orset"); the controller's int v stands
+// for the set of its bits.
+type set map[int]struct{}
+
+func toSet(v int) set {
+	s := set{}
+	for b := 0; b < 8; b++ {
+		if v&(1<<b) != 0 {
+			s[b] = struct{}{}
+		}
+	}
+	return s
+}
+
+func fromSet(s set) int {
+	v := 0
+	for b := range s {
+		v |= 1 << b
+	}
+	return v
+}
+
+type setMonoid struct{ fs *fnset }
+
+func (m setMonoid) Empty() set { return set{} }
+func (m setMonoid) Combine(a, b set) set {
+	m.fs.c.enter(fromSet(a), fromSet(b))
+	u := set{}
+	for k := range a {
+		u[k] = struct{}{}
+	}
+	for k := range b {
+		u[k] = struct{}{}
+	}
+	return u
 }
 
 type failure struct{ x int }
@@ -402,7 +478,7 @@ func (c *ctl) build() {
 	}
 	ctx := c.ctx
 	fs := c.fns(cfg)
-	freq := time.Duration(cfg.Freq) * Unit
+	freq := time.Duration(cfg.Freq) * c.unit()
 	switch {
 	case cfg.Kind == "Pipeline":
 		cur := in
@@ -517,13 +593,14 @@ func (c *ctl) build() {
 		d := fork.Void(ctx, cfg.Par, in)
 		c.addOut("res", unitReader(d), func() int { return len(d) })
 	case cfg.Kind == "Fold" && cfg.Monoid == "sumref":
-		c.refIn = make(chan *cell, cfg.Cap)
+		pin := make(chan *cell, cfg.Cap)
+		c.xin = newXport(pin, func(v int) *cell { return &cell{v} })
 		c.ins[0] = nil
 		var d <-chan *cell
 		if cfg.Forked {
-			d = fork.Fold[*cell](ctx, cfg.Par, c.refIn, refMonoid{fs})
+			d = fork.Fold[*cell](ctx, cfg.Par, pin, refMonoid{fs})
 		} else {
-			d = pipe.Fold[*cell](ctx, c.refIn, refMonoid{fs})
+			d = pipe.Fold[*cell](ctx, pin, refMonoid{fs})
 		}
 		c.addOut("res", func() (int, bool) {
 			p, ok := <-d
@@ -531,6 +608,20 @@ func (c *ctl) build() {
 				return 0, ok
 			}
 			return p.v, true
+		}, func() int { return len(d) })
+	case cfg.Kind == "Fold" && cfg.Monoid == "orset":
+		pin := make(chan set, cfg.Cap)
+		c.xin = newXport(pin, toSet)
+		c.ins[0] = nil
+		var d <-chan set
+		if cfg.Forked {
+			d = fork.Fold[set](ctx, cfg.Par, pin, setMonoid{fs})
+		} else {
+			d = pipe.Fold[set](ctx, pin, setMonoid{fs})
+		}
+		c.addOut("res", func() (int, bool) {
+			p, ok := <-d
+			return fromSet(p), ok
 		}, func() int { return len(d) })
 	case cfg.Kind == "Fold" && !cfg.Forked:
 		d := pipe.Fold(ctx, in, fs.mono())
@@ -558,13 +649,16 @@ func (c *ctl) build() {
 		} else {
 			out = pipe.Join(ctx, rs...)
 		}
+		for i := range rs { // the caller goes on using its slice of channels: Join must have taken what it needs
+			rs[i] = nil
+		}
 		c.addOut("out", intReader(out), func() int { return len(out) })
 	case cfg.Kind == "Throttling":
 		var out <-chan int
 		if cfg.Forked {
-			out = fork.Throttling(ctx, in, cfg.Ops, time.Duration(cfg.Interval)*Unit)
+			out = fork.Throttling(ctx, in, cfg.Ops, time.Duration(cfg.Interval)*c.unit())
 		} else {
-			out = pipe.Throttling(ctx, in, cfg.Ops, time.Duration(cfg.Interval)*Unit)
+			out = pipe.Throttling(ctx, in, cfg.Ops, time.Duration(cfg.Interval)*c.unit())
 		}
 		c.addOut("out", intReader(out), func() int { return len(out) })
 	default:
@@ -605,7 +699,7 @@ func (c *ctl) pipeStage(st Cfg, in <-chan int) <-chan int {
 	case st.Kind == "Fold":
 		return fork.Fold(ctx, st.Par, in, fs.mono())
 	case st.Kind == "Throttling":
-		return pipe.Throttling(ctx, in, st.Ops, time.Duration(st.Interval)*Unit)
+		return pipe.Throttling(ctx, in, st.Ops, time.Duration(st.Interval)*c.unit())
 	}
 	panic("pipeline stage " + st.Kind)
 }
@@ -652,8 +746,8 @@ func (c *ctl) snapshot() Snap {
 	for i, ch := range c.ins {
 		if ch != nil {
 			s.InLen[i] = len(ch)
-		} else if c.refIn != nil {
-			s.InLen[i] = len(c.refIn)
+		} else if c.xin != nil {
+			s.InLen[i] = c.xin.length()
 		} else if c.newSnd != nil {
 			s.InLen[i] = len(c.newSnd)
 		}
@@ -724,17 +818,9 @@ func (c *ctl) issue(cmd *Cmd) {
 		c.sendPend[i] = true
 		var trySend func() bool
 		var send func()
-		if c.refIn != nil {
-			p := &cell{v}
-			trySend = func() bool {
-				select {
-				case c.refIn <- p:
-					return true
-				default:
-					return false
-				}
-			}
-			send = func() { c.refIn <- p }
+		if c.xin != nil {
+			trySend = func() bool { return c.xin.trySend(v) }
+			send = func() { c.xin.send(v) }
 		} else {
 			ch := c.sendCh(i)
 			trySend = func() bool {
@@ -784,8 +870,8 @@ func (c *ctl) issue(cmd *Cmd) {
 					c.emit(Ev{E: "closepanic", I: cmd.I})
 				}
 			}()
-			if c.refIn != nil {
-				close(c.refIn)
+			if c.xin != nil {
+				c.xin.close()
 			} else {
 				close(c.sendCh(cmd.I))
 			}
@@ -825,7 +911,7 @@ func (c *ctl) issue(cmd *Cmd) {
 		c.mu.Unlock()
 		close(g)
 	case "advance":
-		time.Sleep(time.Duration(cmd.D) * Unit)
+		time.Sleep(time.Duration(cmd.D) * c.unit())
 	}
 }
 
@@ -1061,12 +1147,8 @@ func (c *ctl) teardown() {
 	}
 	c.cfg.Gate = false
 	c.mu.Unlock()
-	if c.refIn != nil {
-		ch := c.refIn
-		go func() {
-			for range ch {
-			}
-		}()
+	if c.xin != nil {
+		go c.xin.drain()
 	}
 	for i := range c.ins {
 		ch := c.ins[i]
@@ -1079,8 +1161,8 @@ func (c *ctl) teardown() {
 		}()
 	}
 	synctest.Wait()
-	if c.refIn != nil && !c.inClosed[0] {
-		close(c.refIn)
+	if c.xin != nil && !c.inClosed[0] {
+		c.xin.close()
 		c.inClosed[0] = true
 	}
 	for i := range c.ins {
@@ -1099,7 +1181,7 @@ func (c *ctl) teardown() {
 			}
 		}()
 	}
-	time.Sleep(1000 * Unit)
+	time.Sleep(1000 * c.unit())
 	synctest.Wait()
 }
 
